@@ -1093,7 +1093,7 @@ class RxSO3_AdjTXa(torch.autograd.Function):
     def backward(ctx, grad_output):
         X, a = ctx.saved_tensors
         a_grad = RxSO3_AdjXa.apply(X, grad_output)
-        X_grad = -a.unsqueeze(-2) @ rxso3_adj(a_grad)
+        X_grad = a_grad.unsqueeze(-2) @ rxso3_adj(a)
         zero = torch.zeros(X.shape[:-1]+(1,), device=X.device, dtype=X.dtype)
         return torch.cat((X_grad.squeeze(-2), zero), dim = -1), a_grad
 
